@@ -280,7 +280,14 @@ theorem floor_fin (n : Bool) (m : Nat) (e : Int) (p : Nat) (hN : Normal (.fin n 
 
 /-- `int` is the identity on whole numbers … -/
 theorem int_whole (x : Num) (h : x.isInt = true) : intImpl [numVal x] = .ok (numVal x) := by
-  simp [intImpl, h]
+  cases x with
+  | inf n => simp [Num.isInt] at h
+  | fin n m e p => simp [intImpl, h, Num.isInf]
+
+/-- … rejects every infinity with a plain error (documented for `Int`: "If an infinity
+is passed to Int, an error is returned") … -/
+theorem int_inf (n : Bool) : ∃ msg, intImpl [numVal (.inf n)] = .err msg :=
+  ⟨_, by simp [intImpl, Num.isInf]; rfl⟩
 
 /-- … and truncates a non-integer toward zero: the result is `sval n q` (the sign of
 the argument on the integer part `q` of its magnitude), exactly -/
